@@ -473,6 +473,37 @@ func (fc *fileCtx) stmt(s ast.Stmt) ast.Stmt {
 			n.Results[i] = fc.expr(n.Results[i])
 		}
 	case *ast.DeferStmt:
+		// the callee of a defer is evaluated at the defer statement: wrapping it (external
+		// call point, close) would run the hook now instead of at function exit. Hoist the
+		// arguments and defer a closure instead.
+		_, isLit := n.Call.Fun.(*ast.FuncLit)
+		isClose := false
+		if id, ok := n.Call.Fun.(*ast.Ident); ok && id.Name == "close" && fc.isBuiltin(id) {
+			isClose = true
+		}
+		if !isLit && (isClose || fc.externCallee(n.Call) != "") {
+			var pre []ast.Stmt
+			args := make([]ast.Expr, len(n.Call.Args))
+			for i, a := range n.Call.Args {
+				a = fc.expr(a)
+				if fc.isConst(a) {
+					args[i] = a
+					continue
+				}
+				nm := fc.fresh("d")
+				pre = append(pre, &ast.AssignStmt{Lhs: []ast.Expr{ast.NewIdent(nm)}, Tok: token.DEFINE, Rhs: []ast.Expr{a}})
+				args[i] = ast.NewIdent(nm)
+			}
+			inner := &ast.CallExpr{Fun: n.Call.Fun, Args: args, Ellipsis: n.Call.Ellipsis}
+			body := &ast.BlockStmt{List: []ast.Stmt{&ast.ExprStmt{X: fc.expr(inner)}}}
+			n.Call = &ast.CallExpr{Fun: &ast.FuncLit{Type: &ast.FuncType{Params: &ast.FieldList{}}, Body: body}}
+			if len(pre) == 0 {
+				return n
+			}
+			// the temporaries live in the enclosing block: emit them as siblings through a marker block is
+			// not possible for defer (a block would not change defer semantics, defers are function-scoped)
+			return &ast.BlockStmt{List: append(pre, n)}
+		}
 		n.Call = fc.expr(n.Call).(*ast.CallExpr)
 	case *ast.DeclStmt:
 		if gd, ok := n.Decl.(*ast.GenDecl); ok {
